@@ -561,7 +561,7 @@ func init() {
 		Assumptions: []string{"trusted: Go's regexp/syntax Simplify (used by generator and model alike) and the 150-line PEG interpreter", "back-references and non-greedy operators are outside the documented class and are not generated; rules that can match the empty string are excluded on the generated regex tree"},
 		Batches:     func(t string) int { return pick(t, 4, 16) },
 		Floor:       func(t string) int { return pick(t, 500, 8000) },
-		TimeoutSec:  func(t string) int { return pick(t, 900, 3600) },
+		TimeoutSec:  func(t string) int { return pick(t, 300, 3600) },
 		Prepare:     c05Prepare,
 		Child:       c05Child,
 	})
